@@ -74,7 +74,7 @@ type advModel struct {
 	features []string
 }
 
-func genAdv(r *rand.Rand) advModel {
+func genAdv(r *rand.Rand, extraSymref bool) advModel {
 	m := advModel{hsz: 20, symrefs: map[string]string{}}
 	if r.Intn(4) == 0 {
 		m.hsz = 32
@@ -149,7 +149,7 @@ func genAdv(r *rand.Rand) advModel {
 	if peeledN > 0 {
 		m.features = append(m.features, "peeled")
 	}
-	if len(names) > 1 && r.Intn(6) == 0 { // an extra symref between two branches
+	if len(names) > 1 && r.Intn(6) == 0 && extraSymref { // an extra symref between two branches
 		m.symrefs[names[0]] = names[1]
 	}
 	var sr []string
@@ -391,7 +391,66 @@ func canonUlreq(v *packp.UploadRequest) string {
 	return fmt.Sprintf("caps[%s] wants[%s] shallows[%s] deepen=%d since=%d not=%v filter=%q", capsString(capsOf(&v.Capabilities)), hexes(v.Wants), hexes(v.Shallows), v.Depth.Deepen, since, v.Depth.DeepenNot, v.Filter)
 }
 
+// without returns the model lacking one feature.
+func (m ulreqModel) without(f string) ulreqModel {
+	n := m
+	n.feat = nil
+	for _, x := range m.feat {
+		if x != f {
+			n.feat = append(n.feat, x)
+		}
+	}
+	switch f {
+	case "no-caps":
+		n.caps = &capability.List{}
+		n.caps.Add("ofs-delta")
+	case "shallow":
+		n.shallows = nil
+	case "deepen":
+		n.deepen = 0
+	case "deepen-since":
+		n.since = 0
+	case "deepen-not":
+		n.not = nil
+	case "deepen-since+not":
+		n.since, n.not = 0, nil
+	case "filter":
+		n.filter = ""
+	case "sha256":
+		return m // cannot be removed without regenerating the ids
+	}
+	return n
+}
+
+// ulreqRoundTrip runs the round trip and reduces the feature set of a failing value to a 1-minimal one.
 func ulreqRoundTrip(m ulreqModel) rtResult {
+	res := ulreqRoundTripOnce(m)
+	if res.failKey == "" {
+		return res
+	}
+	base := strings.SplitN(res.failKey, ":", 3)
+	cur := m
+	for _, f := range m.feat {
+		if f == "sha1" || f == "sha256" {
+			continue
+		}
+		n := cur.without(f)
+		r2 := ulreqRoundTripOnce(n)
+		if r2.failKey != "" && strings.HasPrefix(r2.failKey, base[0]+":"+base[1]) {
+			cur = n // still fails without f
+		}
+	}
+	var keep []string
+	for _, f := range cur.feat {
+		if f != "sha1" {
+			keep = append(keep, f)
+		}
+	}
+	res.failKey = base[0] + ":" + base[1] + ":" + strings.Join(keep, ",")
+	return res
+}
+
+func ulreqRoundTripOnce(m ulreqModel) rtResult {
 	v := m.value()
 	want := canonUlreq(m.value())
 	return runSimple(simpleCase{msg: "UploadRequest", shape: strings.Join(m.feat, ",") + fmt.Sprintf("/wants=%d", len(m.wants)), feat: m.feat, want: want,
